@@ -8,6 +8,7 @@ package internal
 // Oracle: an independent reference model written from the property text.
 
 import (
+	"github.com/cenkalti/backoff/v5"
 	"context"
 	"encoding/json"
 	"errors"
@@ -68,6 +69,8 @@ func (c *c05Ctx) end(err error) {
 	}
 }
 
+var c05Draws = []float64{0, 0.999999}
+
 var c05Outcomes = []string{"ok", "transient", "permanent", "wrapped-permanent", "joined-permanent", "throttle0", "throttle1", "throttle10", "partial", "partial-throttle10"}
 var c05Wakes = []string{"timer", "shutdown", "cancel"}
 
@@ -121,6 +124,14 @@ func c05Classify(err error) string {
 
 func c05Body(cfg c05Cfg, maxAttempts int, res *c05Res) func() {
 	return func() {
+		// the random draw of the randomised back-off interval is an environment answer: its extremes (and the middle in the
+		// thorough tier) are enumerated
+		backoff.VerifRand = func(rf float64) float64 {
+			if rf == 0 {
+				return 0.5
+			}
+			return c05Draws[vs.ChooseFree(len(c05Draws))]
+		}
 		*res = c05Res{}
 		t0 := vs.Now()
 		pusher := func(_ context.Context, r request.Request) error {
@@ -348,6 +359,9 @@ func TestVerif(t *testing.T) {
 		t.Skip("not driven")
 	}
 	defer ctx.Finish()
+	if ctx.Param("draws", 2) == 3 {
+		c05Draws = []float64{0, 0.5, 0.999999}
+	}
 	if ctx.ReplayRaw != nil {
 		var rf struct {
 			Replay c05Replay `json:"replay"`
